@@ -254,7 +254,7 @@ func boundaryScalars() []model.Value {
 }
 
 func TestC01(t *testing.T) {
-	p := Prop[C01Case]{ID: "C01", Sub: "roundtrip", Gen: genC01, Run: runC01, Quick: 20000, Thorough: 40000}
+	p := Prop[C01Case]{ID: "C01", Sub: "roundtrip", Gen: genC01, Run: runC01, Quick: 20000, Thorough: 200000}
 	Enumerate(t, p, "boundary-pool", func(yield func(C01Case) bool) {
 		for _, v := range boundaryScalars() {
 			shapes := [][]model.Value{
